@@ -540,6 +540,21 @@ class FluidPropertyPolynominal(FluidProperty):
         """
         return self.prop_int_getter(upper_limit_arg) - self.prop_int_getter(lower_limit_arg)
 
+    def to_dict(self):
+        # numpy's poly1d objects are not JSON serializable: store their coefficients
+        d = super(FluidPropertyPolynominal, self).to_dict()
+        d["prop_getter"] = np.asarray(self.prop_getter.coeffs, dtype=np.float64).tolist()
+        d["prop_int_getter"] = np.asarray(self.prop_int_getter.coeffs, dtype=np.float64).tolist()
+        return d
+
+    @classmethod
+    def from_dict(cls, d):
+        obj = JSONSerializableClass.__new__(cls)
+        obj.__dict__.update(d)
+        obj.prop_getter = np.poly1d(d["prop_getter"])
+        obj.prop_int_getter = np.poly1d(d["prop_int_getter"])
+        return obj
+
     @classmethod
     def from_path(cls, path, polynominal_degree):
         """
